@@ -44,16 +44,17 @@ type EntryInfo struct {
 }
 
 type Frame struct {
-	fn    *ssa.Function
-	regs  map[ssa.Value]Value
-	cuts  map[*ssa.BasicBlock]*cutInfo
-	chain string // naming prefix for inlined frames
-	depth int
-	fc    *FuncContract // contract of this frame's function (loop contracts), may be nil
-	bind  []Value       // closure bindings
+	fn     *ssa.Function
+	regs   map[ssa.Value]Value
+	cuts   map[*ssa.BasicBlock]*cutInfo
+	chain  string // naming prefix for inlined frames
+	depth  int
+	fc     *FuncContract // contract of this frame's function (loop contracts), may be nil
+	bind   []Value       // closure bindings
 	defers []deferred
 	// for discovery: loop stack limits
-	stop map[*ssa.BasicBlock]bool
+	stop   map[*ssa.BasicBlock]bool
+	visits map[*ssa.BasicBlock]int // unrolling: header visits on this path
 	// names: current value (or address, for variables kept in memory) of source-level local variables,
 	// maintained from go/ssa DebugRef instructions; lets contracts mention locals and named results
 	names map[string]nameBinding
@@ -77,6 +78,12 @@ func (f *Frame) clone() *Frame {
 	n := *f
 	n.regs = r
 	n.cuts = c
+	if f.visits != nil {
+		n.visits = make(map[*ssa.BasicBlock]int, len(f.visits))
+		for k, v := range f.visits {
+			n.visits[k] = v
+		}
+	}
 	if f.names != nil {
 		nm := make(map[string]nameBinding, len(f.names))
 		for k, v := range f.names {
@@ -325,6 +332,25 @@ func (ex *Exec) execBlock(st *State, fr *Frame, b *ssa.BasicBlock, pred *ssa.Bas
 			}
 		}
 	}
+	if li != nil && fr.depth > 0 && ex.topFC != nil && ex.topFC.Unroll > 0 && len(ex.disc) == 0 {
+		// unrolling (lemma functions): no cut; the unwinding obligation makes this complete, not bounded
+		if fr.visits == nil {
+			fr.visits = map[*ssa.BasicBlock]int{}
+		}
+		fr.visits[b]++
+		if fr.visits[b] > ex.topFC.Unroll {
+			ex.emit(st, fr, fmt.Sprintf("unwind/loop%d", li.ordinal), "", fmt.Sprintf("loop is left within %d iterations", ex.topFC.Unroll), False, nil, b.Instrs[0].Pos())
+			return nil
+		}
+		if fr.visits[b] > 1 {
+			// a revisit: drop the path when its condition is unsatisfiable (sound: only an "unsat" answer prunes)
+			r := Solve(Script(st.pc.list(), nil, nil), 5, 0, "first")
+			if r.Status == "unsat" {
+				return nil
+			}
+		}
+		return ex.execFrom(st, fr, b, len(phis))
+	}
 	if li != nil {
 		if cut, ok := fr.cuts[b]; ok && pred != nil && li.blocks[pred] {
 			// back edge
@@ -426,9 +452,10 @@ func (ex *Exec) execFrom(st *State, fr *Frame, b *ssa.BasicBlock, idx int) []Out
 			return nil
 		}
 		in := b.Instrs[i]
+		curPC = st.pc
 		switch x := in.(type) {
 		case *ssa.If:
-			c := ex.operand(st, fr, x.Cond).(VBool).T
+			c := decideUnder(ex.operand(st, fr, x.Cond).(VBool).T)
 			if c.IsTrue() {
 				return ex.execBlock(st, fr, b.Succs[0], b)
 			}
